@@ -1223,7 +1223,10 @@ class GaussianState(State):
 
         np = self._connector.np
 
-        return np.real(2**self.d / np.sqrt(np.linalg.det(self.xxpp_covariance_matrix)))
+        return np.real(
+            self._config.hbar**self.d
+            / np.sqrt(np.linalg.det(self.xxpp_covariance_matrix))
+        )
 
     def purify(self) -> "GaussianState":
         """
